@@ -130,7 +130,10 @@ def gen_case(rng, i):
         if rng.random() < 0.5:
             cset, _ = GC.with_nulls(rng, cset, spec)
         case['cset'] = cset
-    case['unknown'] = {'kind': rng.choice(['frobnicate', 'min_len', 'regex', 'transform2', 'MAX']),
+    case['unknown'] = {'kind': rng.choice(['frobnicate', 'min_len', 'regex', 'transform2', 'MAX',
+                                            # look-alikes of real kinds: other separators, other case, plural/singular
+                                            'max-nulls', 'min-length', 'max-length', 'no-duplicates', 'allowed-values', 'Min', 'TYPE',
+                                            'max nulls', 'allowed_value', 'signs', 'maxlength']),
                        'value': rng.choice([1, 'x', [1, 2], {'a': 1}, None]),
                        'comment': rng.choice(['#', '#comment', '#min'])}
     return case
